@@ -4,7 +4,7 @@
    not a necessity witness but a concrete run showing what the readiness clause does NOT say. *)
 From Coq Require Import Sorted Permutation.
 From BV Require Import Base.Prelude Model.Block Model.ForkDB Model.Forkable Model.ForkableLookups
-  Model.Burst Model.Hub Spec.Consumer Spec.Universe Check.Fk_Check Check.Burst_Check Spec.C09_Spec Spec.C09_History_Spec.
+  Model.Burst Model.Hub Spec.Consumer Spec.Universe Check.Fk_Check Check.Burst_Check Spec.C09_Spec Spec.C09_History_Spec Proofs.C09_Store.
 Local Open Scope N_scope.
 
 (* ------------------------------------------------------------------ helpers *)
@@ -44,7 +44,7 @@ Proof.
       try reflexivity; vm_compute in H; discriminate H.
   - intros b Hb. cbn in Hb. destruct Hb as [<-|[<-|[<-|[<-|[<-|[]]]]]]; vm_compute; discriminate.
   - intros b p H. cbn in H. destruct H as [H|[H|[]]]; inversion H; subst; split; cbn; try tauto.
-    intros b' Hb'. cbn in Hb'. tauto.
+    all: intros b' Hb'; cbn in Hb'; tauto.
   - vm_compute. reflexivity.
   - intros [[[_ _ Hp] _] _].
     specialize (Hp (nth 2 (store (db (h_f c09_he))) (c09_E 0 0 0)) (nth 1 (store (db (h_f c09_he))) (c09_E 0 0 0))).
@@ -78,7 +78,7 @@ Theorem c09_wfs_parent_needed :
   ~ from_num_spec c09_s_cyc 1.                                 (* c09_from_num *)
 Proof.
   split; [|split; [|split; [|split; [|split]]]].
-  - apply Proofs.C09_Store.nodup_b_sound. vm_compute. reflexivity.
+  - apply nodup_b_sound. vm_compute. reflexivity.
   - intros e He. cbn in He. destruct He as [<-|[<-|[]]]; vm_compute; discriminate.
   - intros r Hr. vm_compute in Hr. discriminate Hr.
   - intros hd e Hls Hf. vm_compute in Hls. injection Hls as <-. vm_compute in Hf. injection Hf as <-. reflexivity.
@@ -95,7 +95,7 @@ Theorem c09_wst_head_needed :
   wf_db (db c09_s_hd) /\ ~ from_num_spec c09_s_hd 7.
 Proof.
   split.
-  - split; [apply Proofs.C09_Store.wf_store_b_sound; vm_compute; reflexivity | intros r Hr; vm_compute in Hr; discriminate Hr].
+  - split; [apply wf_store_b_sound; vm_compute; reflexivity | intros r Hr; vm_compute in Hr; discriminate Hr].
   - unfold from_num_spec.
     destruct (blocks_from_num c09_s_hd 7) eqn:Hb; try (vm_compute in Hb; discriminate Hb).
     intros (hd & sg & pre & x & suf & (_ & Hls & Hcs & Hsg & Hn & _ & _) & _ & _).
@@ -114,7 +114,7 @@ Theorem c09_extra_ok_needed :
   block_in_chain (db c09_s_ex) (mkR 12 4) 1 = None /\
   ~ (linkable c09_s_ex (mkBlock 12 4 11 1) = Some true \/ linkable c09_s_ex (mkBlock 12 4 11 1) = Some false).
 Proof.
-  split; [apply Proofs.C09_Store.wf_store_b_sound; vm_compute; reflexivity|].
+  split; [apply wf_store_b_sound; vm_compute; reflexivity|].
   split; [vm_compute; reflexivity|].
   intros [H|H]; vm_compute in H; discriminate H.
 Qed.
@@ -140,7 +140,7 @@ Definition c09_d_fit := mkDB [c09_E 12 2 11] None (mkR 0 0).
 Theorem c09_fits_needed :
   wf_store (store c09_d_fit) /\ ~ wf_store (store (fst (add_link c09_d_fit (mkBlock 11 5 10 0)))).
 Proof.
-  split; [apply Proofs.C09_Store.wf_store_b_sound; vm_compute; reflexivity|].
+  split; [apply wf_store_b_sound; vm_compute; reflexivity|].
   intros [_ _ Hp].
   specialize (Hp (c09_E 12 2 11) (mkEntry (mkBlock 11 5 10 0) false)).
   vm_compute in Hp.
@@ -169,7 +169,7 @@ Theorem c09_has_lib_needed :
                  hub_lowest c09_h_nolib = bnum (seg_blk x0)) /\
   blocks_from_num (h_f c09_h_nolib) (hub_lowest c09_h_nolib) = BErr.
 Proof.
-  split; [apply Proofs.C09_Store.wf_state_b_sound; vm_compute; reflexivity|].
+  split; [apply wf_state_b_sound; vm_compute; reflexivity|].
   repeat split; try (vm_compute; reflexivity).
   eexists. eexists. split; vm_compute; reflexivity.
 Qed.
@@ -191,7 +191,7 @@ Theorem c09_ready_needed :
   (exists evs, blocks_from_num (h_f c09_h_nr) 1 = BOk evs /\ map (fun e => bid (eblk e)) evs = [11; 12; 13]).
 Proof.
   split; [vm_compute; reflexivity|].
-  split; [apply Proofs.C09_Store.wf_state_b_sound; vm_compute; reflexivity|].
+  split; [apply wf_state_b_sound; vm_compute; reflexivity|].
   repeat split; try (vm_compute; reflexivity).
   - eexists. eexists. repeat split; vm_compute; reflexivity.
   - eexists. split; vm_compute; reflexivity.
@@ -227,7 +227,7 @@ Proof.
   split; [vm_compute; reflexivity|]. split; [vm_compute; reflexivity|].
   split.
   { intros b p H. cbn in H. destruct H as [H|[H|[]]]; inversion H; subst; split; cbn; try tauto.
-    intros b' Hb'. cbn in Hb'. tauto. }
+    all: intros b' Hb'; cbn in Hb'; tauto. }
   repeat (split; [vm_compute; reflexivity|]).
   intros (hist & c & hd & lo & xL & hi & _ & _ & Hls & _ & Hcs).
   vm_compute in Hls. injection Hls as <-.
